@@ -73,9 +73,21 @@ Definition out_eqb (a b : out) : bool :=
 (* "of any size that fits a page": the cell and its slot fit an empty leaf page *)
 Definition fits_page (e : entry) : bool := csize V vlen e + SLOT <=? LEAF_CAP.
 
+(* An insert may be REFUSED - Err returned, map unchanged - only when an entry of more than half a page is
+   involved (the new one or one already stored): two such cells and a third cannot always be arranged on two
+   pages.  With all entries up to half a page every insert of an absent key must succeed. *)
+Definition half_ok (e : entry) : bool := 2 * (csize V vlen e + SLOT) <=? LEAF_CAP.
+Definition refusal_ok (e : entry) (m : omap) : bool := negb (half_ok e) || existsb (fun c : entry => negb (half_ok c)) m.
+
 Inductive sres := SOk (m : omap) | SBad | SOut.
 
 Definition expect (o expected : out) (m' : omap) : sres := if out_eqb o expected then SOk m' else SBad.
+(* result of inserting an absent key: success, or a refusal where one is allowed *)
+Definition expect_ins (o okr : out) (e : entry) (m : omap) : sres :=
+  match o with
+  | RErr => if refusal_ok e m then SOk m else SBad
+  | _ => expect o okr (om_ins e m)
+  end.
 
 Definition spec_check (m : omap) (o : op) (r : out) : sres :=
   match o with
@@ -83,17 +95,17 @@ Definition spec_check (m : omap) (o : op) (r : out) : sres :=
       if negb (fits_page (k, v)) then SOut else
       match om_get k m with
       | Some _ => expect r RErr m               (* Err("key already exists"), map unchanged *)
-      | None => expect r RUnit (om_ins (k, v) m)
+      | None => expect_ins r RUnit (k, v) m
       end
   | OIine k v =>
       if negb (fits_page (k, v)) then SOut else
       match om_get k m with
       | Some _ => expect r (RUniq false) m
-      | None => expect r (RUniq true) (om_ins (k, v) m)
+      | None => expect_ins r (RUniq true) (k, v) m
       end
   | OAppend k v =>
       if negb (fits_page (k, v)) || negb (om_all_lt k m) then SOut else
-      expect r RUnit (om_ins (k, v) m)
+      expect_ins r RUnit (k, v) m
   | OUpdate k v =>
       if negb (fits_page (k, v)) then SOut else
       match om_get k m with
